@@ -44,7 +44,11 @@ let () =
       let text = emit_text fns in
       let tbin = bind text transpile in
       let tload = bind tbin load in
-      Printf.printf "bin=%s\tload=%s\ttext=%s\ttbin=%s\ttload=%s\n"
-        (show bin) (opt show_fns ld) (opt show text) (opt show tbin) (opt show_fns tload)
+      (* byte level: the file as bytes by the UTF-8 model, and those bytes read back by the UTF-8 decoder model *)
+      let bytes = utf8_encode bin in
+      let hex = if bytes = [] then "-" else String.concat "" (List.map (fun b -> Printf.sprintf "%02x" (int_of_n b)) bytes) in
+      let back = match utf8_decode bytes with Some s -> if s = bin then "same" else "DIFFERENT" | None -> "ERR" in
+      Printf.printf "bin=%s\tload=%s\ttext=%s\ttbin=%s\ttload=%s\tbinhex=%s\tutf8back=%s\n"
+        (show bin) (opt show_fns ld) (opt show text) (opt show tbin) (opt show_fns tload) hex back
     end
   done with End_of_file -> ()
